@@ -27,7 +27,9 @@ type RefPeer struct {
 	maxPay  int
 	rr      int
 	Err     error
-	closed  bool
+	// SessionCloseSeen: a session-closing notice was received and decoded
+	SessionCloseSeen bool
+	closed           bool
 }
 
 type RefStream struct {
@@ -123,6 +125,7 @@ func (p *RefPeer) deliver(f RefFrame) {
 	p.mu.Lock()
 	defer p.mu.Unlock()
 	if f.Closing == 2 {
+		p.SessionCloseSeen = true
 		p.closed = true
 		for _, s := range p.streams {
 			s.eof = true
